@@ -1384,26 +1384,44 @@ Proof.
       cbn [fld_is_none andb bind dval_is_NoneStr code_quoted_dval]. rewrite Es, H. reflexivity.
 Qed.
 
+Ltac snt_tail Hg Hdoc :=
+  cbn [bind g_typ g_doc g_default]; rewrite Hg;
+  let Hm := fresh "Hm" in let c := fresh "c" in let r := fresh "r" in let Hd := fresh "Hd" in
+  let Hstrip := fresh "Hstrip" in let Hnl := fresh "Hnl" in let Hopt := fresh "Hopt" in
+  destruct Hdoc as [Hm|[c [r [Hd [Hstrip [Hnl Hopt]]]]]]; [rewrite Hm; reflexivity|]; rewrite Hd;
+  match goal with
+  | |- context [rstrip (if ?ww then _ else _)] =>
+    let Hdoc' := fresh "Hdoc'" in
+    assert (Hdoc' : rstrip (if ww then join [sp] (map strip (split [nl] (c :: r))) else c :: r) = c :: r);
+    [ destruct ww;
+      [ change (split [nl] (c :: r)) with (split_nl (c :: r)); rewrite (DocParseFacts.split_nl_single _ Hnl);
+        cbn [map join]; rewrite Hstrip; apply strip_rstrip_id; exact Hstrip
+      | apply strip_rstrip_id; exact Hstrip ]
+    | rewrite Hdoc'; unfold prose_starts_optional in Hopt;
+      let Ho := fresh "Ho" in
+      destruct Hopt as [Ho|Ho];
+      [ rewrite Ho; reflexivity
+      | destruct (startswith (L "(Optional)") (c :: r) || startswith (L "Optional") (c :: r)); [|reflexivity];
+        rewrite Ho; reflexivity ] ]
+  end.
+
+(* _set_name_and_type leaves such an entry as it is, whether or not the name ends in kwargs *)
 Lemma set_name_and_type_guard : forall n docf t cd it ww,
-    plain_name_C02 n = true ->
+    startswith [ch 42] n = false -> str_eqb t (L "dict") = false ->
     is_Ok_bool (needs_quoting (Some t)) = true -> endswith google_opt t = false ->
     cd_ok_b cd = true -> docf_ok docf t ->
     set_name_and_type n (mkG docf (Has t) (Some cd)) it ww = Ok (n, mkG docf (Has t) (Some cd)).
 Proof.
-  intros n docf t cd it ww Hn Hnq Hg Hcd Hdoc. unfold set_name_and_type.
-  unfold plain_name_C02 in Hn. apply negb_true_iff in Hn. rewrite Hn. cbn [g_default].
-  rewrite (infer_default_canon docf t cd it Hnq Hcd). cbn [bind g_typ g_doc g_default]. rewrite Hg.
-  destruct Hdoc as [Hm|[c [r [Hd [Hstrip [Hnl Hopt]]]]]]; subst docf; [reflexivity|].
-  assert (Hdoc' : rstrip (if ww then join [sp] (map strip (split [nl] (c :: r))) else c :: r) = c :: r).
-  { destruct ww.
-    - change (split [nl] (c :: r)) with (split_nl (c :: r)). rewrite (DocParseFacts.split_nl_single _ Hnl).
-      cbn [map join]. rewrite Hstrip. apply strip_rstrip_id. exact Hstrip.
-    - apply strip_rstrip_id. exact Hstrip. }
-  rewrite Hdoc'. unfold prose_starts_optional in Hopt.
-  destruct Hopt as [Ho|Ho].
-  - rewrite Ho. reflexivity.
-  - destruct (startswith (L "(Optional)") (c :: r) || startswith (L "Optional") (c :: r)); [|reflexivity].
-    rewrite Ho. reflexivity.
+  intros n docf t cd it ww Hn Hdict Hnq Hg Hcd Hdoc. unfold set_name_and_type.
+  destruct (endswith (L "kwargs") n || startswith (L "**") n).
+  - cbn [g_typ g_default g_doc]. rewrite Hdict.
+    assert (Hl : lstrip_chars [ch 42] n = n).
+    { unfold lstrip_chars. apply lstrip_by_id.
+      intros c Hc. destruct n as [|c0 n0]; [discriminate Hc|]. cbn [head_c] in Hc. inversion Hc; subst c0.
+      cbn [startswith] in Hn. unfold mem_c. cbn [existsb]. rewrite ascii_eqb_sym.
+      destruct (ascii_eqb (ch 42) c); [discriminate Hn|reflexivity]. }
+    rewrite Hl. snt_tail Hg Hdoc.
+  - cbn [g_default]. rewrite (infer_default_canon docf t cd it Hnq Hcd). snt_tail Hg Hdoc.
 Qed.
 
 (* ================================================================== *)
@@ -1450,12 +1468,11 @@ Qed.
 
 Lemma param_ok_inv : forall n g,
     param_ok_C02 (n, g) = true ->
-    plain_name_C02 n = true
-    /\ exists t, g_typ g = Has t /\ typ_ok_C02 t = true /\ prose_ok_C02 t g = true
-                 /\ gparam_ok_C02 g = true.
+    exists t, g_typ g = Has t /\ typ_ok_C02 t = true /\ prose_ok_C02 t g = true
+              /\ gparam_ok_C02 g = true.
 Proof.
-  intros n g H. unfold param_ok_C02 in H. cbn [fst snd] in H. apply andb_true_iff in H. destruct H as [Hn Hg].
-  split; [exact Hn|]. pose proof Hg as Hg0. unfold gparam_ok_C02 in Hg. destruct (g_typ g) as [| |t]; try discriminate Hg.
+  intros n g H. unfold param_ok_C02 in H. cbn [fst snd] in H. rename H into Hg.
+  pose proof Hg as Hg0. unfold gparam_ok_C02 in Hg. destruct (g_typ g) as [| |t]; try discriminate Hg.
   apply andb_true_iff in Hg. destruct Hg as [Hg _]. apply andb_true_iff in Hg. destruct Hg as [Ht Hp].
   exists t. repeat split; assumption.
 Qed.
@@ -1477,18 +1494,20 @@ Proof.
 Qed.
 
 Lemma typ_ok_nq : forall t, typ_ok_C02 t = true ->
-    is_Ok_bool (needs_quoting (Some t)) = true /\ endswith google_opt t = false.
+    is_Ok_bool (needs_quoting (Some t)) = true /\ endswith google_opt t = false /\ str_eqb t (L "dict") = false.
 Proof.
-  intros t H. destruct (typ_ok_C02_inv t H) as [e [nq [_ [Hnq [_ [Hg _]]]]]]. rewrite Hnq. split; [reflexivity|exact Hg].
+  intros t H. destruct (typ_ok_C02_inv t H) as [e [nq [_ [Hnq [_ [Hg [Hd _]]]]]]]. rewrite Hnq.
+  split; [reflexivity|]. split; [exact Hg|exact Hd].
 Qed.
 
 (* the final map on the documented part *)
 Lemma pa_mapM_documented : forall it ww P D0 xsP,
     same_params same_prose P D0 = true -> Forall2 attr_for P xsP ->
     forallb param_ok_C02 P = true -> forallb documented P = true ->
+    forallb (fun n => negb (startswith [ch 42] n)) (map fst P) = true ->
     pa_mapM (fun kv => set_name_and_type (fst kv) (snd kv) it ww) (zipupd xsP D0) = Ok (norm_params_C02 P).
 Proof.
-  intros it ww P. induction P as [|[n g] P IH]; intros D0 xsP Hs HF Hok Hdoc.
+  intros it ww P. induction P as [|[n g] P IH]; intros D0 xsP Hs HF Hok Hdoc Hstar.
   - inversion HF; subst. apply same_params_nil_r in Hs. subst D0. reflexivity.
   - destruct D0 as [|[n' dg] D0]; [discriminate Hs|]. cbn [same_params] in Hs.
     apply andb_true_iff in Hs. destruct Hs as [Hs Hsr]. apply andb_true_iff in Hs. destruct Hs as [Hnn Hsp].
@@ -1496,14 +1515,15 @@ Proof.
     inversion HF as [|kv x l xs [Hxn [_ [Hxt Hxd]]] HF']; subst kv l xsP. cbn [fst snd] in Hxn, Hxt, Hxd.
     cbn [forallb] in Hok, Hdoc. apply andb_true_iff in Hok. destruct Hok as [Hokg Hok].
     apply andb_true_iff in Hdoc. destruct Hdoc as [Hdg Hdoc].
-    destruct (param_ok_inv n g Hokg) as [Hplain [t [Ht [Htok [Hprose Hgok]]]]].
+    cbn [map fst forallb] in Hstar. apply andb_true_iff in Hstar. destruct Hstar as [Hplain Hstar]. apply negb_true_iff in Hplain.
+    destruct (param_ok_inv n g Hokg) as [t [Ht [Htok [Hprose Hgok]]]].
     rewrite Ht in Hxt. inversion Hxt as [Htx].
     assert (Hdg' : documented (L "", g) = true) by exact Hdg.
     destruct (docf_ok_of_prose t g dg Hprose Hsp Hdg') as [Hdocf Hdoceq].
-    destruct (typ_ok_nq t Htok) as [Hnq Hgo].
+    destruct (typ_ok_nq t Htok) as [Hnq [Hgo Hdict]].
     cbn [zipupd pa_mapM upd1 fst snd]. rewrite <- Htx, Hxd.
-    rewrite (set_name_and_type_guard n (g_doc dg) t (canon_default g) it ww Hplain Hnq Hgo (canon_default_ok g Hgok) Hdocf).
-    cbn [bind]. rewrite (IH D0 xs Hsr HF' Hok Hdoc). cbn [bind norm_params_C02 map fst snd].
+    rewrite (set_name_and_type_guard n (g_doc dg) t (canon_default g) it ww Hplain Hdict Hnq Hgo (canon_default_ok g Hgok) Hdocf).
+    cbn [bind]. rewrite (IH D0 xs Hsr HF' Hok Hdoc Hstar). cbn [bind norm_params_C02 map fst snd].
     unfold norm_param_C02. rewrite Hdoceq, Ht. reflexivity.
 Qed.
 
@@ -1511,19 +1531,21 @@ Qed.
 Lemma pa_mapM_undocumented : forall it ww U xsU,
     Forall2 attr_for U xsU ->
     forallb param_ok_C02 U = true -> forallb (fun kv => negb (documented kv)) U = true ->
+    forallb (fun n => negb (startswith [ch 42] n)) (map fst U) = true ->
     pa_mapM (fun kv => set_name_and_type (fst kv) (snd kv) it ww) (map fresh xsU) = Ok (norm_params_C02 U).
 Proof.
-  intros it ww U. induction U as [|[n g] U IH]; intros xsU HF Hok Hdoc.
+  intros it ww U. induction U as [|[n g] U IH]; intros xsU HF Hok Hdoc Hstar.
   - inversion HF; subst. reflexivity.
   - inversion HF as [|kv x l xs [Hxn [_ [Hxt Hxd]]] HF']; subst kv l xsU. cbn [fst snd] in Hxn, Hxt, Hxd.
     cbn [forallb] in Hok, Hdoc. apply andb_true_iff in Hok. destruct Hok as [Hokg Hok].
     apply andb_true_iff in Hdoc. destruct Hdoc as [Hdg Hdoc]. apply negb_true_iff in Hdg.
-    destruct (param_ok_inv n g Hokg) as [Hplain [t [Ht [Htok [Hprose Hgok]]]]].
+    cbn [map fst forallb] in Hstar. apply andb_true_iff in Hstar. destruct Hstar as [Hplain Hstar]. apply negb_true_iff in Hplain.
+    destruct (param_ok_inv n g Hokg) as [t [Ht [Htok [Hprose Hgok]]]].
     rewrite Ht in Hxt. inversion Hxt as [Htx].
-    destruct (typ_ok_nq t Htok) as [Hnq Hgo].
+    destruct (typ_ok_nq t Htok) as [Hnq [Hgo Hdict]].
     cbn [map pa_mapM fresh fst snd]. rewrite Hxn, <- Htx, Hxd.
-    rewrite (set_name_and_type_guard n Missing t (canon_default g) it ww Hplain Hnq Hgo (canon_default_ok g Hgok) (or_introl eq_refl)).
-    cbn [bind]. rewrite (IH xs HF' Hok Hdoc). cbn [bind norm_params_C02 map fst snd].
+    rewrite (set_name_and_type_guard n Missing t (canon_default g) it ww Hplain Hdict Hnq Hgo (canon_default_ok g Hgok) (or_introl eq_refl)).
+    cbn [bind]. rewrite (IH xs HF' Hok Hdoc Hstar). cbn [bind norm_params_C02 map fst snd].
     unfold norm_param_C02, prose_fld, prose_fld_of. unfold documented in Hdg. cbn [snd] in Hdg.
     destruct (prose_of g); [discriminate Hdg|]. rewrite Ht. reflexivity.
 Qed.
@@ -1627,7 +1649,7 @@ Lemma forall_folded_ok : forall i,
 Proof.
   intros i Hp Hr. apply Forall_app. split.
   - apply Forall_forall. intros [n g] Hin. rewrite forallb_forall in Hp. specialize (Hp _ Hin).
-    unfold param_ok_C02 in Hp. apply andb_true_iff in Hp. destruct Hp as [_ Hp]. exact Hp.
+    unfold param_ok_C02 in Hp. exact Hp.
   - unfold ret_entry, return_ok_C02 in *. destruct (ir_returns i) as [| |r]; try constructor; [|constructor].
     apply andb_true_iff in Hr. destruct Hr as [Hr _]. exact Hr.
 Qed.
@@ -1673,8 +1695,12 @@ Proof.
   destruct HpokP as [HpokP HpokU].
   assert (Hset : set_names_and_types (zipupd xsP D0 ++ map fresh xsU) it ww' = Ok (norm_params_C02 (ir_params i))).
   { unfold set_names_and_types. rewrite pa_mapM_app.
-    rewrite (pa_mapM_documented it ww' P D0 xsP H0 HFP HpokP HP). cbn [bind].
-    rewrite (pa_mapM_undocumented it ww' U xsU HFU HpokU HU). cbn [bind].
+    assert (HstarPU : forallb (fun n => negb (startswith [ch 42] n)) (map fst P) = true
+                      /\ forallb (fun n => negb (startswith [ch 42] n)) (map fst U) = true).
+    { rewrite Hps, map_app, forallb_app in Hstar. apply andb_true_iff in Hstar. exact Hstar. }
+    destruct HstarPU as [HstarP HstarU].
+    rewrite (pa_mapM_documented it ww' P D0 xsP H0 HFP HpokP HP HstarP). cbn [bind].
+    rewrite (pa_mapM_undocumented it ww' U xsU HFU HpokU HU HstarU). cbn [bind].
     rewrite <- norm_params_app, <- Hps. rewrite od_of_pairs_id; [reflexivity|].
     unfold keys. rewrite norm_params_keys. exact Hnd. }
   (* the return entry *)
@@ -1702,7 +1728,7 @@ Proof.
   apply andb_true_iff. split.
   - apply same_params_strict_norm. apply Forall_forall. intros [n g] Hin. cbn [snd].
     rewrite forallb_forall in Hpok. specialize (Hpok _ Hin). unfold param_ok_C02 in Hpok.
-    apply andb_true_iff in Hpok. destruct Hpok as [_ Hgk]. apply gparam_ok_scalar_default. exact Hgk.
+    apply gparam_ok_scalar_default. exact Hpok.
   - unfold same_returns, norm_returns_C02, return_ok_C02 in *. destruct (ir_returns i) as [| |r]; try reflexivity.
     cbn [fget]. apply same_param_strict_norm. apply andb_true_iff in Hrok. destruct Hrok as [Hrg _].
     apply gparam_ok_scalar_default. exact Hrg.
@@ -1806,6 +1832,7 @@ Definition w2_ok : ir :=
      (L "k", PG (L "9") (L "bool") (Some (DV (VBool false))));
      (L "l", PG (L "10") (L "np.ndarray") None);
      (L "m", PG (L "Optional thing") (L "Optional[int]") (Some (DV (VInt (-5)))));
+     (L "kwargs", PG (L "more") (L "Optional[dict]") (Some (DV (VStr NoneStr))));
      (L "u", mkG Missing (Has (L "str")) None);
      (L "v", mkG Missing (Has (L "Tuple[int, str]")) None)]
     (Has (PG (L "the result") (L "Optional[float]") None)) None.
